@@ -57,9 +57,14 @@ func TestVerifC20(t *testing.T) {
 	var probe struct {
 		Kind string `json:"kind"`
 		Via  string `json:"via"`
+		Flow string `json:"flow"`
 	}
 	if r.ReplayCase(&probe) {
 		switch {
+		case probe.Flow != "":
+			var c flowCase
+			r.ReplayCase(&c)
+			runFlowCase(r, c)
 		case probe.Via != "":
 			var c outCase
 			r.ReplayCase(&c)
@@ -83,6 +88,9 @@ func TestVerifC20(t *testing.T) {
 	}
 	if want("outbound") {
 		sectionOutbound(t, r)
+	}
+	if want("flows") {
+		sectionFlows(t, r)
 	}
 	if want("flags") {
 		sectionFlags(t, r)
